@@ -18,6 +18,10 @@ use std::sync::atomic::{AtomicU64, Ordering};
 pub struct Chooser {
     prefix: Vec<u32>,
     pos: usize,
+    /// true while the engine only probes the arities of the first picks to build its shards; a
+    /// body that makes all its picks up front should return right after them when this is set,
+    /// so that probe runs are not counted as executions
+    pub probing: bool,
     /// (choice taken, number of alternatives) for each pick of this execution
     pub trace: Vec<(u32, u32)>,
 }
@@ -27,6 +31,7 @@ impl Chooser {
         Self {
             prefix,
             pos: 0,
+            probing: false,
             trace: Vec::new(),
         }
     }
@@ -100,6 +105,7 @@ fn frontier<F: Fn(&mut Chooser)>(split: usize, probe: &F) -> Vec<Vec<u32>> {
             continue;
         }
         let mut ch = Chooser::new(p.clone());
+        ch.probing = true;
         probe(&mut ch);
         if ch.trace.len() <= p.len() {
             // complete execution shorter than split: it is its own shard
